@@ -27,7 +27,7 @@ pub struct Case {
 }
 
 pub const N_MODES: u8 = 10;
-pub const N_PATHS: u8 = 11;
+pub const N_PATHS: u8 = 12;
 
 /// (git-ai config or None for "no config file", expected effective mode keeps text in notes)
 fn mode_config(m: u8) -> (Option<Value>, bool, &'static str) {
@@ -88,9 +88,13 @@ fn path_ops(p: u8) -> (Vec<HOp>, &'static str) {
         ),
         8 => (vec![ai(0, 0, 1), Commit, ai(0, 1, 3), Commit, ResetSoft { back: 2, recommit: true }], "reset --soft + recommit"),
         9 => (vec![ai(0, 0, 1), Stash, human(1, 2), Commit, StashPop { resolve: Resolve::Theirs }, Commit], "stash -> pop -> commit"),
-        _ => (
+        10 => (
             vec![Fork { back: 0 }, ai(0, 0, 1), Commit, ai(0, 0, 6), Commit, SwitchPrev, human(1, 2), Commit, SwitchPrev, Rebase { target: 0, kind: RebaseKind::Squash, resolve: Resolve::Both }],
             "rebase -i squash",
+        ),
+        _ => (
+            vec![Fork { back: 0 }, ai(0, 0, 1), Commit, ai(1, 1, 6), Commit, SwitchPrev, human(1, 2), Commit, CiSquash { branch: 0 }],
+            "CI rewrite (server-side squash merge + git-ai squash-authorship)",
         ),
     }
 }
@@ -248,7 +252,7 @@ pub fn spec() -> Spec<Case> {
     Spec {
         id: "C08",
         level: "exploration",
-        rule: "enumerated cross product {10 prompt-storage configurations: no config file, default, default + custom api_base_url, local, notes, include-list match/miss with default_prompt_storage unset/notes/local, exclude-list match} x {11 note-writing paths: commit, partial commit + later commit, amend with/without new agent work, rebase fast/slow path, cherry-pick, merge --squash + commit, reset --soft + recommit, stash -> pop -> commit, rebase -i squash} x {agent-v1 with inline transcript, claude with transcript re-fetched from a JSONL file} with a fixed transcript (220 scenarios), plus generated combinations with generated transcripts (1-5 messages of kinds user/assistant/thinking/plan/tool_use, each with a unique low-entropy canary and 0-2 planted tokens from [A-Za-z0-9_+/.~-]{20,80} that the library's own classifier accepts). Oracle: every blob of every commit in `git rev-list refs/notes/ai` is searched: unless the effective mode is 'notes' no canary may occur; in 'notes' mode the middle of every planted secret must not occur (and text canaries do occur - non-vacuity counter). non-trivial = a note with AI lines was written in a history with agent checkpoints; distinct by case hash".into(),
+        rule: "enumerated cross product {10 prompt-storage configurations: no config file, default, default + custom api_base_url, local, notes, include-list match/miss with default_prompt_storage unset/notes/local, exclude-list match} x {12 note-writing paths: commit, partial commit + later commit, amend with/without new agent work, rebase fast/slow path, cherry-pick, merge --squash + commit, reset --soft + recommit, stash -> pop -> commit, rebase -i squash, CI rewrite of a server-side squash merge via `git-ai squash-authorship`} x {agent-v1 with inline transcript, claude with transcript re-fetched from a JSONL file} with a fixed transcript (240 scenarios), plus generated combinations with generated transcripts (1-5 messages of kinds user/assistant/thinking/plan/tool_use, each with a unique low-entropy canary and 0-2 planted tokens from [A-Za-z0-9_+/.~-]{20,80} that the library's own classifier accepts). Oracle: every blob of every commit in `git rev-list refs/notes/ai` is searched: unless the effective mode is 'notes' no canary may occur; in 'notes' mode the middle of every planted secret must not occur (and text canaries do occur - non-vacuity counter). non-trivial = a note with AI lines was written in a history with agent checkpoints; distinct by case hash".into(),
         cases_quick: 42,
         cases_thorough: 2500,
         shrink_iters: 40,
